@@ -13,8 +13,7 @@
    Recorded exceptions (the statement is FALSE of the code; `_refuted` theorems + replays,
    known_findings.d/C09.txt):
      * ConfidenceScore: binary64 `*` is not associative
-     * Cost::mul in release builds: unchecked `a + b` wraps
-   (the former linearity exception is fixed, see C09_linearity)
+   (the former linearity and release-profile Cost exceptions are fixed)
    FuzzyLogic is proved for all binary64 values in [0,1] from the standard library's
    FloatAxioms specification of <?, <=?, =? (axioms ltb_spec, leb_spec, eqb_spec).
    Not proved (correspondence check only): ConfidenceScore's laws other than the refuted one
@@ -251,14 +250,11 @@ Theorem C09_confidence_mul_assoc_refuted :
 Proof. exact confidence_mul_refuted. Qed.
 Print Assumptions C09_confidence_mul_assoc_refuted.
 
-(* Cost in a release build (no overflow checks): `a + b` in Cost::mul wraps modulo 2^32 and
-   left distributivity fails *)
-Theorem C09_cost_release_overflow_refuted :
-  exists a b c u v,
-    sr_eval_rel SCost a b c (XMul XA (XAdd XB XC)) = Some u /\
-    sr_eval_rel SCost a b c (XAdd (XMul XA XB) (XMul XA XC)) = Some v /\ u <> v.
-Proof. exact cost_release_left_dist_refuted. Qed.
-Print Assumptions C09_cost_release_overflow_refuted.
+(* Former finding, fixed in /repo commit eb5e08fe819: Cost::mul used an unchecked `a + b`
+   that wraps in release builds (former C09_cost_release_overflow_refuted: a = 4294967295,
+   b = 1, c = 0 gave a*(b+c) = 4294967295 but a*b + a*c = 0).  It now panics on overflow in
+   every profile, so C09_cost_semiring covers release builds; the witness is replayed first
+   by the release probe (corpus/C09/cost_release_overflow.json). *)
 
 (* FuzzyLogic ([0,1], max, min, 0, 1): for every value accepted by `FuzzyLogic::new`, both
    sides of each of the eleven semiring laws are defined and equal for f64's `==` *)
